@@ -271,6 +271,55 @@ fn fault_step(w: &mut World, ctx: &mut Ctx, st: &Step) -> StepResult {
             ctx.shape_mix(om.shape_hash() ^ 0x08);
             StepResult::Produced
         }
+        "EncObscured" => {
+            // an element encrypted in place by the obscuring API (its plaintext may be a whole node), used as
+            // the subject of further assertions, sent, then decrypted with the same key
+            let key = (st.arg(1) % 4) as u32;
+            let k = sym_key(key);
+            if om.is_obscured() {
+                return StepResult::Skipped;
+            }
+            let act = ObscureAction::Encrypt(k.clone());
+            let enc = match guarded(|| orig.elide_removing_target_with_action(&orig, &act)) {
+                Ok(e) => e,
+                Err(p) => {
+                    ctx.violate_sig("C16.no-panic", format!("elide with Encrypt action panicked: {}", p), p);
+                    return StepResult::Skipped;
+                }
+            };
+            ctx.checked();
+            if digest_of(&enc) != digest_of(&orig) || !enc.is_encrypted() {
+                ctx.violate("C08.digest", "an element encrypted in place does not keep its digest (or is not encrypted)".to_string());
+            }
+            let decorated = if st.arg(2) % 2 == 0 { enc.add_assertion("verif-note", (st.arg(2) % 89) as u32) } else { enc.clone() };
+            if om.is_node() {
+                ctx.probe("encrypted-node-as-subject");
+            }
+            let back = match decode_guarded(&decorated.to_cbor_data()) {
+                Decoded::Ok(e) => e,
+                _ => {
+                    ctx.violate("C08.roundtrip", "the encrypted envelope does not decode".to_string());
+                    return StepResult::Refused;
+                }
+            };
+            match guarded(|| back.decrypt_subject(&k)) {
+                Ok(Ok(x)) => {
+                    if digest_of(&x) != digest_of(&decorated) {
+                        ctx.violate("C08.digest", "decrypting the subject changed the envelope's digest".to_string());
+                    }
+                    // with the extra assertion the original sits in the subject position; without it, it is the result
+                    let restored = if st.arg(2) % 2 == 0 { x.subject() } else { x.clone() };
+                    if !identical_bytes(&restored, &orig) {
+                        ctx.violate("C08.roundtrip", "decrypting an element encrypted in place did not restore the original as the subject".to_string());
+                    }
+                }
+                Ok(Err(e)) => ctx.violate("C08.roundtrip", format!("decrypting an element encrypted in place with the same key failed: {}", e)),
+                Err(p) => ctx.violate_sig("C16.no-panic", format!("decrypt panicked: {}", p), p),
+            }
+            ctx.t("EncObscured");
+            ctx.shape_mix(om.shape_hash() ^ 0x48);
+            StepResult::Produced
+        }
         "EncTamper" | "EncBitflip" | "EncFlipAll" => {
             let key = (st.arg(1) % 4) as u32;
             let whole = st.arg(2) % 2 == 1;
@@ -446,6 +495,18 @@ fn fault_step(w: &mut World, ctx: &mut Ctx, st: &Step) -> StepResult {
             if digest_of(&back) != digest_of(&decorated) {
                 ctx.violate("C13.digest", "digest changed across storage of a compressed envelope".to_string());
             }
+            if st.arg(2) % 2 == 1 {
+                // the other pairing: an undecorated compressed element restored with uncompress_subject()
+                match guarded(|| back.uncompress_subject()) {
+                    Ok(Ok(x)) => {
+                        if !identical_bytes(&x, &orig) {
+                            ctx.violate("C13.roundtrip", "uncompress_subject of a compressed envelope did not return the original".to_string());
+                        }
+                    }
+                    Ok(Err(e)) => ctx.violate("C13.roundtrip", format!("uncompress_subject of a library-compressed envelope failed: {}", e)),
+                    Err(p) => ctx.violate_sig("C13.roundtrip", format!("uncompress_subject panicked instead of returning the original: {}", p), p),
+                }
+            }
             let un = guarded(|| if whole && st.arg(2) % 2 == 1 { back.uncompress() } else { back.uncompress_subject() });
             match un {
                 Ok(Ok(x)) => {
@@ -458,7 +519,9 @@ fn fault_step(w: &mut World, ctx: &mut Ctx, st: &Step) -> StepResult {
                         }
                     } else {
                         // subject of x must be identical to the original whole
-                        if !identical_bytes(&x.subject(), &orig) {
+                        // with the extra assertion the original sits in the subject position; without it, it is the result
+                    let restored = if st.arg(2) % 2 == 0 { x.subject() } else { x.clone() };
+                    if !identical_bytes(&restored, &orig) {
                             ctx.violate("C13.roundtrip", "uncompress_subject did not restore the original as the subject".to_string());
                         }
                     }
@@ -588,7 +651,7 @@ pub fn run(scn: &Scenario, ctx: &mut Ctx) {
         ctx.step = i;
         ctx.sim_ticks += 1;
         let r = match st.op.as_str() {
-            "EncRoundtrip" | "EncTamper" | "EncBitflip" | "EncFlipAll" | "EncMisdeclare" | "CompRoundtrip" | "CompTamper" | "CompBitflip" | "CompFlipAll" | "CompMisdeclare" | "CompMisdirected" => fault_step(&mut w, ctx, st),
+            "EncRoundtrip" | "EncObscured" | "EncTamper" | "EncBitflip" | "EncFlipAll" | "EncMisdeclare" | "CompRoundtrip" | "CompTamper" | "CompBitflip" | "CompFlipAll" | "CompMisdeclare" | "CompMisdirected" => fault_step(&mut w, ctx, st),
             _ => hist::exec_step(&mut w, ctx, st),
         };
         if !matches!(r, StepResult::Skipped) {
@@ -617,7 +680,8 @@ pub fn generate(property: &str, r: &mut SimRng, seed: u64) -> Scenario {
     for _ in 0..n {
         if property == "C08" {
             match r.below(10) {
-                0..=2 => scn.push("EncRoundtrip", &[ds(r), r.below(4), r.below(2), r.below(3)]),
+                0..=1 => scn.push("EncRoundtrip", &[ds(r), r.below(4), r.below(2), r.below(3)]),
+                2 => scn.push("EncObscured", &[ds(r), r.below(4), r.below(200)]),
                 3..=5 => scn.push("EncTamper", &[ds(r), r.below(4), r.below(2), r.below(4), r.next() % 100000, r.below(6)]),
                 6..=7 => scn.push("EncBitflip", &[ds(r), r.below(4), r.below(2), r.next() % 1000000]),
                 _ => scn.push("EncMisdeclare", &[ds(r), ds(r), r.below(4), r.below(2)]),
